@@ -42,7 +42,7 @@ def c07(ctx):
 
 def c12(ctx):
     ctx.gotest("refserver", "^TestVerifC12(Matrix|Timeout|Wire)", race=False, timeout=1800)
-    ctx.gotest("refserver", "^TestVerifC12RepeatConcurrent$", race=True, timeout=900)
+    ctx.gotest("refserver", "^TestVerifC12(RepeatConcurrent|PrinterConcurrent)$", race=True, timeout=900)
 
 
 def c09(ctx):
